@@ -385,15 +385,21 @@ Qed.
 (* Apply                                                               *)
 (* ================================================================== *)
 
-(* Functions 10 and 11 of the menu return a slice of another length, and column-wise Apply
-   stores whatever slice it gets.  The length of the stored slice is a function of the
-   function id and of the length of the column alone: *)
+(* Functions 10-13 of the menu return a slice of another length (10, 11: []interface{},
+   12: []int, 13: []string), and column-wise Apply stores whatever slice it gets.  The length
+   of the stored slice is a function of the function id and of the length of the column alone: *)
 Definition apply_len (id n : nat) : nat :=
   match id with
-  | 10%nat => Nat.div2 n
-  | 11%nat => S n
+  | 10%nat | 12%nat => Nat.div2 n
+  | 11%nat | 13%nat => S n
   | _ => n
   end.
+
+(* case analysis on a function id of the menu: ids 0 .. 15 one by one and a last case
+   S^16 id (the default branch of apply_fn).  The menu currently ends at 13; the two spare
+   levels fall into the default branch and are closed by the same tactics, so the menu can
+   grow a little without the case analyses below having to be re-nested. *)
+Ltac menu_cases id := do 16 (try (destruct id as [|id]; [|])).
 
 Lemma div2_le n : (Nat.div2 n <= n)%nat.
 Proof. pose proof (Nat.div2_odd n) as H. lia. Qed.
@@ -402,17 +408,19 @@ Lemma apply_col_length_gen id d d' :
   apply_col id d = Ok d' -> length d' = apply_len id (length d).
 Proof.
   unfold apply_col.
-  destruct id as [|[|[|[|[|[|[|[|[|[|[|[|n]]]]]]]]]]]]; cbn [apply_fn apply_len]; intros H;
+  menu_cases id; cbn [apply_fn apply_len]; intros H;
     try discriminate; injection H as <-;
-    rewrite ?map_length, ?rev_length, ?repeat_length, ?seq_length; try reflexivity.
+    rewrite ?map_length, ?app_length, ?map_length, ?rev_length, ?repeat_length, ?seq_length;
+    try reflexivity.
   - apply firstn_length_le. apply div2_le.
-  - rewrite app_length. cbn [length]. lia.
+  - cbn [length]. lia.
+  - cbn [length]. lia.
 Qed.
 
 Lemma apply_len_keeps id n : fn_keeps_length id = true -> apply_len id n = n.
 Proof.
   unfold fn_keeps_length.
-  destruct id as [|[|[|[|[|[|[|[|[|[|[|[|k]]]]]]]]]]]]; cbn; intros H; try reflexivity; discriminate.
+  menu_cases id; cbn; intros H; try reflexivity; discriminate.
 Qed.
 
 (* the functions that keep the length: the new column is as long as the old one.
@@ -428,10 +436,15 @@ Example apply_col_length_needs_premise :
   apply_col 11 [CNil] = Ok [CNil; CS s_k] /\ apply_col 10 [CNil; CNil] = Ok [CNil] /\
   fn_keeps_length 10 = false /\ fn_keeps_length 11 = false /\ fn_keeps_length 8 = true.
 Proof. vm_compute. repeat split. Qed.
+(* the same for the typed slices of another length (ids 12, 13) *)
+Example apply_col_length_needs_premise_typed :
+  apply_col 13 [CNil] = Ok [CS s_k; CS s_k] /\ apply_col 12 [CNil; CNil] = Ok [CI KInt 0] /\
+  fn_keeps_length 12 = false /\ fn_keeps_length 13 = false /\ fn_keeps_length 14 = true.
+Proof. vm_compute. repeat split. Qed.
 
 (* Column-wise Apply on a well-formed frame: every column has nrows f cells, so every new
    column has apply_len id (nrows f) cells - the result is rectangular for EVERY function of
-   the menu, also for the two that change the length (all columns change alike).  No premise
+   the menu, also for the four (10-13) that change the length (all columns change alike).  No premise
    on the function is needed; the number of rows of the result is apply_len id (nrows f). *)
 Lemma wfn_apply_col : forall id f g, wf_frame f = true ->
   op_apply_col id f = Ok g -> wfn (apply_len id (nrows f)) g = true.
